@@ -11,6 +11,7 @@
 //!     c      corruption: 0 none, 1 signed by another key, 2 tampered after signing,
 //!            3 body/payload mismatch, 4 unsupported version, 5 signature missing
 //!     id     `Operation.hash` field: `s` the header hash, `o<j>` header hash of op j, `j<k>` junk k
+//!     optional 9th field `src`: reuse the header of op `src` unchanged (a copy; only b and id apply)
 //!   delivery = index into the op list
 //!
 //! Result: `V=<validate_operation bit per op> ; <step> ; <step> ...`
@@ -61,11 +62,35 @@ struct Built {
     op: Op,
     log: u64,
     prune: bool,
+    /// Payload the header commits to (kept also when the operation is delivered without it).
+    payload: Option<Body>,
 }
 
 fn build(idx: usize, def: &str, built: &[Built]) -> Built {
     let f: Vec<&str> = def.split(',').collect();
-    assert!(f.len() == 8, "op definition needs 8 fields");
+    assert!(f.len() == 8 || f.len() == 9, "op definition needs 8 or 9 fields");
+    if f.len() == 9 {
+        // Copy: the header of an earlier operation, unchanged; body and hash field as given.
+        let src = &built[f[8].parse::<usize>().unwrap()];
+        let header = src.op.header.clone();
+        let body = if f[5] == "1" {
+            Some(src.payload.clone().unwrap_or_else(|| Body::new(b"unexpected body")))
+        } else {
+            None
+        };
+        let hash = match &f[7][..1] {
+            "s" => header.hash(),
+            "o" => built[f[7][1..].parse::<usize>().unwrap()].op.header.hash(),
+            "j" => junk(f[7][1..].parse().unwrap()),
+            _ => panic!("id spec"),
+        };
+        return Built {
+            op: Operation { hash, header, body },
+            log: src.log,
+            prune: src.prune,
+            payload: src.payload.clone(),
+        };
+    }
     let a: u64 = f[0].parse().unwrap();
     let l: u64 = f[1].parse().unwrap();
     let seq: SeqNum = f[2].parse().unwrap();
@@ -121,10 +146,12 @@ fn build(idx: usize, def: &str, built: &[Built]) -> Built {
         "j" => junk(f[7][1..].parse().unwrap()),
         _ => panic!("id spec"),
     };
+    let payload = if c == 0 { body.clone() } else { None };
     Built {
         op: Operation { hash, header, body },
         log: l,
         prune,
+        payload,
     }
 }
 
